@@ -1,7 +1,7 @@
 """C10 — service and identifier scans report what the ECU really supports, nothing else.
 
 spec   : spec/ServiceScanContract.tla + ServiceScan.tla, spec/IdentScanContract.tla + IdentScan.tla
-MC     : MC_ServiceScan_{a,b,c,d}(+a12,afull,b3 thorough), MC_IdentScan_{a,b,c,noclamp};
+MC     : MC_ServiceScan_{a,b,c,d}(+a6,afull,a12,b3 thorough), MC_IdentScan_{a,b,c,noclamp};
          negative controls MC_ServiceScan_dev{Mask,Lens,Break,Check}, MC_IdentScan_dev{End,Neg,Endian}
 binding: the REAL ServicesScanner / ScanIdentifiers, run through AsyncScript.run() with a real ECU
          client over the full tcp-lines stack in memory (harness/c10_stack.py), virtual time;
@@ -27,8 +27,9 @@ from harness.c10_stack import LEN, NONE, SNS, SNSIAS, setup_logging_once
 from harness.common import Machinery, Report
 
 SVC_MC_QUICK = ["a", "b", "c", "d"]
-SVC_MC_THOROUGH = ["afull", "a12", "b3"]
+SVC_MC_THOROUGH = ["a6", "afull", "a12", "b3"]
 SVC_NEG = {"devMask": {"V5_RespIds", "V3_Probed"}, "devLens": {"V1b_All"}, "devBreak": {"V1b_All"},
+           "devTimeout": {"V1b_All"},
            "devCheck": {"V2_InSession"}}
 ID_MC = ["a", "b", "c", "noclamp"]
 ID_NEG = {"devEnd": {"I2_Asked", "I1_Counter"}, "devNeg": {"I1_Counter"}, "devEndian": {"I2_Asked", "I1_Counter"}}
@@ -121,7 +122,7 @@ def _mc(rep: Report, tier: str) -> None:
 def _cls_of(rec: dict[str, Any], sid: int) -> list[Any]:
     k = rec["k"]
     if k == "Ans":
-        return cs.ans(rec["at"], bool(rec["pos"]), sid, bool(rec["drop"]))
+        return cs.ans(rec["at"], bool(rec["pos"]), sid, bool(rec["drop"]), bool(rec["q"]))
     return [k]
 
 
@@ -279,7 +280,7 @@ def build_cases(tier: str, seed: int) -> list[dict[str, Any]]:
     cases += cs.svc_boundary()
     cases += cs.svc_defaults()
     ab = cs.svc_abstract("quick")
-    cases += ab[::3] if tier == "quick" else ab
+    cases += ab[::5] if tier == "quick" else ab
     if tier == "thorough":
         cases += cs.svc_abstract("thorough")[1::5]
     cases += cs.svc_random(tier, seed, _services_of)
@@ -382,10 +383,12 @@ def run(tier: str, seed: int) -> Report:
                         "result": t["result"][:12], "verdict": verdicts[i]})
         else:
             rep.sample({"scan": "identifiers", "cfg": uniq[i]["cfg"], "events": t["ev"][:8], "verdict": verdicts[i]})
-    rep.exhaustive = True
+    rep.exhaustive = tier == "thorough"
+    rep.extra["design_layer_not_vacuous"] = ("every action of ServiceScan (cfg d) and IdentScan (cfg a) is taken "
+                                             "(TLC -coverage, counts in design_action_coverage)")
     rep.extra["exhaustive_spaces"] = (
-        "every abstract service model of 2 sessions x sids {0x10,0x50} x 6 behaviour classes (1296 models; quick: "
-        "every 3rd) concretised and scanned; the 144 class pairs of all 12 classes side by side on all 256 service "
+        "every abstract service model of 2 sessions x sids {0x10,0x50} x 7 behaviour classes (2401 models; quick: "
+        "every 5th; thorough additionally every 5th of the 20736 models over 12 classes) concretised and scanned; the 144 class pairs of all 12 classes side by side on all 256 service "
         "ids; identifier ranges x session lists x skip maps x check_session of harness/c10_cases.py fully crossed "
         "(quick: every 3rd); everything else seeded samples")
     # ---- 5. binding self-tests: corrupted traces and mutants of the harness's own fakes must be rejected
